@@ -198,9 +198,9 @@ impl<'p> PointerIndex<'p> for (Bound<usize>, Bound<usize>) {
             (Bound::Included(start), Bound::Included(end)) => pointer.get(start..=end),
             (Bound::Included(start), Bound::Excluded(end)) => pointer.get(start..end),
             (Bound::Included(start), Bound::Unbounded) => pointer.get(start..),
-            (Bound::Excluded(start), Bound::Included(end)) => pointer.get(start + 1..=end),
-            (Bound::Excluded(start), Bound::Excluded(end)) => pointer.get(start + 1..end),
-            (Bound::Excluded(start), Bound::Unbounded) => pointer.get(start + 1..),
+            (Bound::Excluded(start), Bound::Included(end)) => pointer.get(start.checked_add(1)?..=end),
+            (Bound::Excluded(start), Bound::Excluded(end)) => pointer.get(start.checked_add(1)?..end),
+            (Bound::Excluded(start), Bound::Unbounded) => pointer.get(start.checked_add(1)?..),
             (Bound::Unbounded, Bound::Included(end)) => pointer.get(..=end),
             (Bound::Unbounded, Bound::Excluded(end)) => pointer.get(..end),
             (Bound::Unbounded, Bound::Unbounded) => pointer.get(..),
